@@ -32,7 +32,7 @@ ASSUMPTIONS = [
     "with --debug an exception leaving main() (a traceback in a real process) is allowed; without it, it counts as a traceback",
 ]
 
-DOCS = ['{"a": [1, 2, {"a": 3}], "arr": [[1], [1, 2]], "a b": "sp", "\\u00e9": "acute", "s": "x"}', "[1, 2, [3, {\"a\": 4}]]", '{"a":',
+DOCS = ['{"a": [1, 2, {"a": 3}], "arr": [[1], [1, 2]], "a b": "sp", "\\u00e9": "acute", "s": "x", "a\\u00a0": 5}', "[1, 2, [3, {\"a\": 4}]]", '{"a":',
         # byte-level forms: UTF-8 with BOM, UTF-16, invalid UTF-8, non-finite numbers
         b'\xef\xbb\xbf{"a": [1, "\xc3\xa9"], "s": "x"}', '{"a": [1, "\u00e9"], "s": "x"}'.encode("utf-16"), b'{"a": "\xff\xfe\xfd"}',
         '{"a": [1e999, -1e999], "s": "x"}',
@@ -45,7 +45,10 @@ QUERIES = ["$.a", "$\n.a\n[0]", "$[\n'a',\n's'\n]", "$..a", "$[?@.a]", "$.arr[?l
            # queries the library rejects at their very first character (the error message shows a line and column)
            "]", "1", "?@.a", "|", "true", " ]",
            # an expression file that is not valid UTF-8 (bytes: given with -r only)
-           b"$.a\xff", b"\xff\xfe$.a"]
+           b"$.a\xff", b"\xff\xfe$.a",
+           # characters Python's str.strip() removes but that are not JSONPath blank space: part of a shorthand name
+           # (NBSP, U+3000) or a syntax error (form feed, unit separator)
+           "$.a\u00a0", "$.a\x0c", "\x1f$.a", "$.s\u3000"]
 POINTERS = ["/a/0", "", "/arr/1/0", "/a%20b", "/a b", "/\\u00e9", "/zz", "/a/9", "a", "/s/0",
             # outer blanks: an inline expression is the library's argument as it stands; an expression file is stripped
             "/a/1 ", "/s ", "/a b ", " /a/0", "/a/1\t",
@@ -148,7 +151,8 @@ def library(case):
             json.loads(doc_text)  # undecodable bytes: UnicodeDecodeError (a ValueError) = an undecodable document
         if case["cmd"] == "path":
             env = jsonpath.JSONPathEnvironment(unicode_escape=not case["nue"], well_typed=not case["ntc"])
-            p = env.compile(case["expr"] if case["inline"] else case["expr"].strip())
+            # (an expression file is stripped of JSONPath blank space - space, tab, line feed, carriage return)
+            p = env.compile(case["expr"] if case["inline"] else case["expr"].strip(" \t\n\r"))
             return ("ok", p.findall(json.loads(doc_text)))
         if case["cmd"] == "pointer":
             doc = json.loads(doc_text) if not _bad_json(doc_text) else None
